@@ -125,7 +125,7 @@ func groupWorld(r *R) {
 				sim.Sleep(rg.delay, "registrar-delay")
 			}
 			if rg.raceStop {
-				sim.WaitUntil("registrar-wait-stop", func() bool { return anyStopInv != 0 })
+				sim.WaitUntil("registrar-wait-stop", func() bool { return anyStopInv != 0 || parent.Dead() })
 			}
 			Spin(rg.spin, "registrar-pace")
 			sim.Yield("register")
@@ -243,7 +243,12 @@ func groupWorld(r *R) {
 				sim.Sleep(longest+time.Millisecond, "stopper-settle-more")
 			}
 		} else {
-			sim.Sleep(stopSleep, "stopper-sleep")
+			if parentCancel && stopSpin%2 == 1 {
+				// stop right after the parent context was cancelled (registrations may be racing that)
+				sim.WaitUntil("stopper-wait-parent", func() bool { return parent.Dead() })
+			} else {
+				sim.Sleep(stopSleep, "stopper-sleep")
+			}
 			Spin(stopSpin, "stopper-pace")
 			r.Fault("stop_race")
 		}
